@@ -38,10 +38,16 @@ for lg in logs:
             cur = None
             if m.group(1) == mid:
                 cur = m.group(2)
-                detection[cur] = {"exit": int(m.group(3)), "log": os.path.basename(lg)}
+                h = detection.setdefault(cur, {"history": []})
+                h["history"].append({"log": os.path.basename(lg), "exit": int(m.group(3))})
+                h["exit"] = int(m.group(3))
+                h.pop("violation", None)
             continue
         if cur and line.startswith("violation:") and "violation" not in detection[cur]:
             detection[cur]["violation"] = line.strip()[:400]
+for c, h in detection.items():
+    exits = [x["exit"] for x in h["history"]]
+    h["missed_at_first"] = exits[0] == 0 and exits[-1] == 1
 
 meta = {
     "property": agent.get("property", re.sub(r"b?-m\d+$", "", mid)),
@@ -59,4 +65,4 @@ meta = {
 if note:
     meta["note"] = note
 json.dump(meta, open(os.path.join(dst, "meta.json"), "w"), indent=1)
-print(mid, {k: v["exit"] for k, v in detection.items()})
+print(mid, {k: [x["exit"] for x in v["history"]] for k, v in detection.items()})
